@@ -395,7 +395,7 @@ Definition entry_ok (m : PositiveMap.t (nat * N)) (e : nat * N * N) : bool :=
   end.
 
 Definition table_ok (n : nat) : bool :=
-  let es := entries n in let m := build es in forallb (entry_ok m) es.
+  forallb (entry_ok (build (entries n))) (entries n).
 
 (* positions 0..999 from the end cover every string DecodeGeneric admits (<= 1000 characters) *)
 Definition NMAX : nat := 1000.
@@ -407,7 +407,7 @@ Lemma table_exists : exists m, forall d v, (d < NMAX)%nat -> In v vals ->
   entry_ok m (d, v, shift d v) = true.
 Proof.
   exists (build (entries NMAX)). intros d v Hd Hv.
-  pose proof table_ok_NMAX as T. unfold table_ok in T. cbv zeta in T.
+  pose proof table_ok_NMAX as T. unfold table_ok in T.
   rewrite forallb_forall in T. apply T. apply entries_in; assumption.
 Qed.
 Global Opaque NMAX.
